@@ -201,8 +201,15 @@ def gen_part(pid, tier, rep, d):
     quick = tier == "quick"
     beh = gen_streams(d, rep, CLASSES, 2 if quick else 3, 2, 0, "b")
     beh4 = gen_streams(d, rep, [CLASSES[2], CLASSES[5]] if quick else CLASSES, 3, 2, 0 if quick else 1, "c")
+    # deeper sharing patterns over the reduced alphabet (3 leaves, 3 containers, nesting depth 3)
+    behr = gen_streams(d, rep, [CLASSES[2], CLASSES[5]] if quick else CLASSES, 5 if quick else 6, 3, 2, "r")
     seen = set((b["mv"], b["py3"], bytes(bytearray(b["buf"]))) for b in beh)
-    beh += [b for b in beh4 if (b["mv"], b["py3"], bytes(bytearray(b["buf"]))) not in seen]
+    for extra_ in (beh4, behr):
+        for b in extra_:
+            k_ = (b["mv"], b["py3"], bytes(bytearray(b["buf"])))
+            if k_ not in seen:
+                seen.add(k_)
+                beh.append(b)
     bare = bare_records(beh)
     # design-level round trip: the reference reader must accept the reference writer
     ok, err, rej, stats = judge(bare, "self", pid)
